@@ -19,6 +19,7 @@ pub mod c15;
 pub mod c16;
 pub mod c17;
 pub mod c18;
+pub mod c19;
 pub mod c20;
 
 pub struct Entry {
@@ -47,6 +48,7 @@ pub fn lookup(id: &str) -> Option<Entry> {
         "C16" => Entry { id: "C16", check: c16::check, replay: c16::replay },
         "C17" => Entry { id: "C17", check: c17::check, replay: c17::replay },
         "C18" => Entry { id: "C18", check: c18::check, replay: c18::replay },
+        "C19" => Entry { id: "C19", check: c19::check, replay: c19::replay },
         "C20" => Entry { id: "C20", check: c20::check, replay: c20::replay },
         _ => return None,
     })
@@ -55,6 +57,7 @@ pub fn lookup(id: &str) -> Option<Entry> {
 pub fn worker(args: &[String]) -> i32 {
     match args.first().map(|s| s.as_str()) {
         Some("digest") => c09::worker_digest(),
+        Some(m) if m.starts_with("c19-") => c19::worker(args),
         Some("shard") | Some("one") if args.get(1).map(|s| s.as_str()) == Some("C10") => c10::worker(args),
         _ => 2,
     }
